@@ -5,6 +5,7 @@ import (
 	"fmt"
 	"strings"
 	"sync"
+	"sync/atomic"
 
 	"github.com/lugu/qiloop/bus/net"
 	secret "github.com/lugu/qiloop/bus/session/token"
@@ -23,10 +24,15 @@ type client struct {
 	subscribeMutex sync.Mutex
 }
 
+// lastMessageID is shared by the clients of the process: several
+// clients can use the same connection, where a reply is matched with
+// its call by the message id.
+var lastMessageID uint32 = 1
+
 func (c *client) nextMessageID() uint32 {
 	c.messageIDMutex.Lock()
 	defer c.messageIDMutex.Unlock()
-	c.messageID += 2
+	c.messageID = atomic.AddUint32(&lastMessageID, 2)
 	return c.messageID
 }
 
